@@ -5,7 +5,7 @@ PROPS["C09"] = dict(
          "scheduler decisions {start the next call of an idle worker, complete the creation parked for key k with success or failure} followed by a "
          "drain; free-running mode lets 0/20/50% of creations fail and yields inside the create function. Every call is recorded with the value "
          "returned, the value it created and the delete callbacks it made (attributed by goroutine); after a final Clear every created value must "
-         "have been deleted exactly once. One case in four builds the cache WITHOUT a delete callback (a legal configuration): the ledger is then silent and the case is judged on returned values, creations (hit vs miss) and Clear counts against the sequential LRU model. non-trivial = two workers were inside GetOrCreate of one key at the same time, or a delete callback ran "
+         "have been deleted exactly once. Capacity 1..4 over 1..6 keys, key 0 being the zero value of the key type (the empty string); one case in four is a long recency history (10-40 calls, heavy on hits and removals) on one worker with the others interfering a little. One case in four builds the cache WITHOUT a delete callback (a legal configuration): the ledger is then silent and the case is judged on returned values, creations (hit vs miss) and Clear counts against the sequential LRU model. non-trivial = two workers were inside GetOrCreate of one key at the same time, or a delete callback ran "
          "while a creation was between its start and its insertion; distinct = hash of (case, mode)",
     assumptions=["controlled mode: schedules at the granularity of 'creation completes' decisions, runs to quiescence in between (synctest.Wait); free-running mode samples real schedules",
                  "sequential specification: hit returns the resident value and makes it most recently used; a miss that creates inserts and evicts exactly the LRU entry when over capacity; "
